@@ -203,6 +203,14 @@ type Parser struct {
 	depth     int                 // Stores how deep the currently evaluated expression or statement is nested.
 	usedFuncs map[string][]string // Stores which function (key) calls which functions (values).
 	importers []string            // Stores the paths of the files which are currently being parsed and led to this file.
+	parsed    map[string]parsedFile // Stores the imported files which have already been parsed in this run (shared by the parsers of all files of the run).
+}
+
+// parsedFile holds what an importing file needs from a file which has been parsed.
+type parsedFile struct {
+	program   Program
+	prefix    string
+	usedFuncs map[string][]string
 }
 
 func New() Parser {
@@ -244,6 +252,11 @@ func (p *Parser) parse(path string, imported bool) (Program, error) {
 	p.tokens = tokens
 	p.path = path
 	p.prefix = ""
+
+	// Every run starts with an empty table of parsed files (files might change between runs).
+	if !imported || p.parsed == nil {
+		p.parsed = map[string]parsedFile{}
+	}
 
 	// If it's an imported file, use source hash as prefix.
 	if imported {
@@ -764,18 +777,32 @@ func (p *Parser) evaluateImports(ctx context) ([]Statement, error) {
 			if absPath == p.path || slices.Contains(p.importers, absPath) {
 				return nil, fmt.Errorf(`import cycle: "%s" imported in "%s" is currently being imported`, path, p.path)
 			}
-			importParser := New()
-			importParser.importers = append(slices.Clone(p.importers), p.path)
-			importedProg, err := importParser.parse(absPath, true)
+			// A file which is reached along several import paths is only parsed once per run,
+			// otherwise the effort doubles with every layer of a diamond-shaped import graph.
+			imported, parsed := p.parsed[absPath]
 
-			if err != nil {
-				return nil, err
+			if !parsed {
+				importParser := New()
+				importParser.importers = append(slices.Clone(p.importers), p.path)
+				importParser.parsed = p.parsed
+				importedProg, err := importParser.parse(absPath, true)
+
+				if err != nil {
+					return nil, err
+				}
+				imported = parsedFile{
+					program:   importedProg,
+					prefix:    importParser.prefix,
+					usedFuncs: importParser.usedFuncs,
+				}
+				p.parsed[absPath] = imported
 			}
+			importedProg := imported.program
 
 			if _, exists := ctx.findImport(alias); exists {
 				return nil, fmt.Errorf(`import alias "%s" already exists`, alias)
 			}
-			err = ctx.addImport(alias, importParser.prefix)
+			err = ctx.addImport(alias, imported.prefix)
 
 			if err != nil {
 				return nil, err
@@ -783,9 +810,9 @@ func (p *Parser) evaluateImports(ctx context) ([]Statement, error) {
 			statementsTemp = append(statementsTemp, importedProg.Body()...)
 
 			// Import-parser funcs with current parser funcs.
-			for funcName, usedFuncs := range importParser.usedFuncs {
+			for funcName, usedFuncs := range imported.usedFuncs {
 				if foundUsedFuncs, exists := p.usedFuncs[funcName]; !exists {
-					p.usedFuncs[funcName] = usedFuncs
+					p.usedFuncs[funcName] = slices.Clone(usedFuncs) // The parsed file's list is shared, it must never be appended to.
 				} else {
 					for _, usedFunc := range usedFuncs {
 						if !slices.Contains(foundUsedFuncs, usedFunc) {
